@@ -5,21 +5,21 @@
   `I : ReaderI ρ`), ARE the hand-written models of Model/SkipStream.lean:
 
       BSD_SkipN_eq : 0 ≤ p.n → 0 ≤ n → p.n + n < 2^63 →
-                       liftDec N.absE absB (Funcs.BSD_SkipN p n) = bytesBackend.skipN (absB p) n.toNat
+                       liftSDec N.absE absB (Funcs.BSD_SkipN p n) = bytesBackend.skipN (absB p) n.toNat
       BSD_Reset_eq : liftSt absB (Funcs.BSD_Reset p b) = .ok ⟨b, 0⟩               (the model's fresh decoder)
       BSD_Next_eq  : |p.b| + 2^35 < 2^63 → |p.b| + 66 ≤ fuel →
-                       liftDec N.absE absB (Funcs.BSD_Next fuel p (toI8 t.toNat)) = bytesDecNext (absB p) t
+                       liftSDec N.absE absB (Funcs.BSD_Next fuel p (toI8 t.toNat)) = bytesDecNext (absB p) t
       SD_SkipN_eq  : 0 ≤ p.rn → 0 ≤ n → p.rn + n < 2^63 →
-                       liftDec N.absE absD (Funcs.SD_SkipN (iOfRd (rawOf N)) p n) = bufioxBackend.skipN (absD p) n.toNat
+                       liftSDec N.absE absD (Funcs.SD_SkipN (iOfRd (rawOf N)) p n) = bufioxBackend.skipN (absD p) n.toNat
       SD_Next_eq   : Inv p.r → |remaining| + ri + 2^35 < 2^63 → |remaining| + 66 ≤ fuel →
-                       liftDec N.absE (·.r) (Funcs.SD_Next (iOfRd (rawOf N)) fuel p (toI8 t.toNat)) = bufioxDecNext p.r t
+                       liftSDec N.absE (·.r) (Funcs.SD_Next (iOfRd (rawOf N)) fuel p (toI8 t.toNat)) = bufioxDecNext p.r t
 
   * abstraction maps: `absB p = ⟨p.b, p.n.toNat⟩ : BytesDec`, `absD p = ⟨p.r, p.rn.toNat⟩ : BufioxDec` (the Go `int` offset
     is the model's `Nat`; `0 ≤ p.n` / `0 ≤ p.rn` is the Go-side invariant — both fields only ever hold `0` or a sum of
     non-negative counts — that the `SkipN` theorems assume and the `Next` theorems do NOT need: `Next` resets the offset
     first, exactly like the model `{ s with n := 0 }` / `{ r := r, rn := 0 }`); for `SD_Next` the model returns the reader
     only, so the abstraction is `p ↦ p.r` (the stale `p.rn` is reset by the following `Next`).
-  * `liftDec absE α`: result `(p', buf, err)` ↦ `ok (buf, α p')` when `err = nil`, `err (absE err)` otherwise (the model
+  * `liftSDec absE α`: result `(p', buf, err)` ↦ `ok (buf, α p')` when `err = nil`, `err (absE err)` otherwise (the model
     drops the decoder state next to an error); Go panics carried over with their kind.
   * errors: as in Tpl.lean an `ErrNaming N` names the model's `TErr` values; the reader model's `RErr` `e` is handed to the
     translation as `rawOf N e = N.errOf (.raw e)`.  `BytesSkipDecoder.SkipN` returns the package-level `io.EOF`, which
@@ -52,7 +52,7 @@ def RB (p : Funcs.S_thrift_BytesSkipDecoder) (s : BytesDec) : Prop := 0 ≤ p.n 
 def RD (p : Funcs.S_thrift_SkipDecoder Rd) (s : BufioxDec) : Prop := 0 ≤ p.rn ∧ s = absD p
 
 /-- result `(p', buf, err)` of a translated decoder method as the model's `TOut (Bytes × σ)` -/
-def liftDec {ρ σ : Type} (absE : GoErr → TErr) (α : ρ → σ) (x : GM (ρ × Bytes × GoErr)) : TOut (Bytes × σ) :=
+def liftSDec {ρ σ : Type} (absE : GoErr → TErr) (α : ρ → σ) (x : GM (ρ × Bytes × GoErr)) : TOut (Bytes × σ) :=
   match x with
   | .ok r => if r.2.2 = GoErr.nil then .ok (r.2.1, α r.1) else .err (absE r.2.2)
   | .panic s => .panic s
@@ -81,10 +81,10 @@ inductive DSim {ρ σ : Type} (N : ErrNaming) (R : ρ → σ → Prop) : GM (ρ 
   | oob : DSim N R .oob .oob
 
 theorem DSim.lift {ρ σ : Type} {N : ErrNaming} {R : ρ → σ → Prop} {α : ρ → σ} (hα : ∀ p s, R p s → s = α p)
-    {x : GM (ρ × Bytes × GoErr)} {y : TOut (Bytes × σ)} (h : DSim N R x y) : liftDec N.absE α x = y := by
+    {x : GM (ρ × Bytes × GoErr)} {y : TOut (Bytes × σ)} (h : DSim N R x y) : liftSDec N.absE α x = y := by
   cases h with
-  | ok p b s h => simp [liftDec, hα p s h]
-  | err p b e h => simp [liftDec, h]
+  | ok p b s h => simp [liftSDec, hα p s h]
+  | err p b e h => simp [liftSDec, h]
   | panic m => rfl
   | oob => rfl
 
@@ -110,7 +110,7 @@ theorem RB_abs (p : Funcs.S_thrift_BytesSkipDecoder) (s : BytesDec) (h : RB p s)
 theorem RD_abs (p : Funcs.S_thrift_SkipDecoder Rd) (s : BufioxDec) (h : RD p s) : s = absD p := h.2
 
 /-- `b[lo:hi]` inside the slice -/
-theorem slice_ok (b : Bytes) (lo hi : Int) (h0 : 0 ≤ lo) (h1 : lo ≤ hi) (h2 : hi ≤ (b.length : Int)) :
+theorem slice_ok_x (b : Bytes) (lo hi : Int) (h0 : 0 ≤ lo) (h1 : lo ≤ hi) (h2 : hi ≤ (b.length : Int)) :
     slice b lo hi = .ok ((b.take hi.toNat).drop lo.toNat) := by
   unfold slice len
   have c1 : ¬ (hi < 0 ∨ hi > (b.length : Int)) := by omega
@@ -158,7 +158,7 @@ theorem BSD_SkipN_sim (N : ErrNaming) (hE : N.errOf (.raw .eof) = GoErr.named "i
   simp only at hsz
   unfold Funcs.BSD_SkipN bytesBackend absB
   by_cases hlen : b.length ≥ m + k
-  · go_simp [hlen, wrap_i64_of_range, slice_ok]
+  · go_simp [hlen, wrap_i64_of_range, slice_ok_x]
     refine DSim.ok' _ _ _ _ ?_ ⟨?_, ?_⟩
     · rw [List.take_drop]; congr_omega
     · simp only; omega
@@ -171,7 +171,7 @@ theorem BSD_SkipN_sim (N : ErrNaming) (hE : N.errOf (.raw .eof) = GoErr.named "i
 theorem BSD_SkipN_eq (N : ErrNaming) (hE : N.errOf (.raw .eof) = GoErr.named "io.EOF")
     (p : Funcs.S_thrift_BytesSkipDecoder) (n : Int) (hn0 : 0 ≤ p.n) (hk : 0 ≤ n)
     (hsz : p.n + n < 9223372036854775808) :
-    liftDec N.absE absB (Funcs.BSD_SkipN p n) = bytesBackend.skipN (absB p) n.toNat :=
+    liftSDec N.absE absB (Funcs.BSD_SkipN p n) = bytesBackend.skipN (absB p) n.toNat :=
   (BSD_SkipN_sim N hE p n hn0 hk hsz).lift RB_abs
 
 /-- `BytesSkipDecoder.Reset(b)`: never fails, and the receiver afterwards is the model's fresh decoder `⟨b, 0⟩`, whatever
@@ -257,7 +257,7 @@ theorem BSD_Next_sim (N : ErrNaming) (hE : N.errOf (.raw .eof) = GoErr.named "io
 theorem BSD_Next_eq (N : ErrNaming) (hE : N.errOf (.raw .eof) = GoErr.named "io.EOF")
     (p : Funcs.S_thrift_BytesSkipDecoder) (t : UInt8) (fuel : Nat)
     (hsz : p.b.length + 34359738368 < 9223372036854775808) (hf : p.b.length + 66 ≤ fuel) :
-    liftDec N.absE absB (Funcs.BSD_Next fuel p (toI8 t.toNat)) = bytesDecNext (absB p) t :=
+    liftSDec N.absE absB (Funcs.BSD_Next fuel p (toI8 t.toNat)) = bytesDecNext (absB p) t :=
   (BSD_Next_sim N hE p t fuel hsz hf).lift RB_abs
 
 /-! ## SkipDecoder over a bufiox.Reader -/
@@ -310,7 +310,7 @@ theorem SD_SkipN_sim (N : ErrNaming) (p : Funcs.S_thrift_SkipDecoder Rd) (n : In
 /-- `SkipDecoder.SkipN` translated from the Go source, over the reader model, IS the model back end's `skipN` -/
 theorem SD_SkipN_eq (N : ErrNaming) (p : Funcs.S_thrift_SkipDecoder Rd) (n : Int) (h0 : 0 ≤ p.rn) (hk : 0 ≤ n)
     (hsz : p.rn + n < 9223372036854775808) :
-    liftDec N.absE absD (Funcs.SD_SkipN (iOfRd (rawOf N)) p n) = bufioxBackend.skipN (absD p) n.toNat :=
+    liftSDec N.absE absD (Funcs.SD_SkipN (iOfRd (rawOf N)) p n) = bufioxBackend.skipN (absD p) n.toNat :=
   (SD_SkipN_sim N p n h0 hk hsz).lift RD_abs
 
 /-- a successful `SkipN` of the model back end only moves the window: what the reader owes is unchanged -/
@@ -416,7 +416,7 @@ theorem SD_Next_sim (N : ErrNaming) (p : Funcs.S_thrift_SkipDecoder Rd) (t : UIn
 theorem SD_Next_eq (N : ErrNaming) (p : Funcs.S_thrift_SkipDecoder Rd) (t : UInt8) (fuel : Nat) (hinv : Inv p.r)
     (hsm : p.r.remaining.length + p.r.ri + 34359738368 < 9223372036854775808)
     (hf : p.r.remaining.length + 66 ≤ fuel) :
-    liftDec N.absE (fun p => p.r) (Funcs.SD_Next (iOfRd (rawOf N)) fuel p (toI8 t.toNat)) = bufioxDecNext p.r t :=
+    liftSDec N.absE (fun p => p.r) (Funcs.SD_Next (iOfRd (rawOf N)) fuel p (toI8 t.toNat)) = bufioxDecNext p.r t :=
   (SD_Next_sim N p t fuel hinv hsm hf).lift (fun _ _ h => h)
 
 /-! ## the generated decoders compute (non-vacuity) -/
@@ -447,10 +447,10 @@ example : outB ((Funcs.BSD_Next 80 { n := 0, b := [8, 0, 1, 0, 0] } 12).bind (fu
 example : bytesDecNext { b := [8, 0, 1, 0, 0], n := 3 } 2 = .ok ([8], { b := [0, 1, 0, 0], n := 0 }) := by
   decide +kernel
 -- through the lift: the model's outcome, error named by `stdNaming`
-example : liftDec absStd absB (Funcs.BSD_Next 80 { n := 0, b := [8, 0, 1, 0, 0] } 12) = .err (.raw .eof) := by
+example : liftSDec absStd absB (Funcs.BSD_Next 80 { n := 0, b := [8, 0, 1, 0, 0] } 12) = .err (.raw .eof) := by
   decide +kernel
 example : bytesDecNext { b := [8, 0, 1, 0, 0], n := 0 } 12 = .err (.raw .eof) := by decide +kernel
-example : liftDec absStd absB (Funcs.BSD_Next 80 { n := 0, b := [255, 255, 255, 255] } 11) = .err errNeg := by
+example : liftSDec absStd absB (Funcs.BSD_Next 80 { n := 0, b := [255, 255, 255, 255] } 11) = .err errNeg := by
   decide +kernel
 -- SkipN and Reset
 example : outB (Funcs.BSD_SkipN { n := 1, b := [5, 6, 7, 8] } 2) = .ok ([6, 7], GoErr.nil, 3, [5, 6, 7, 8]) := by
@@ -472,7 +472,7 @@ example : outD (Funcs.SD_Next stdI 80 { r := Rd.newBytes [0, 0, 0, 1, 9] 5, rn :
 example : (bufioxDecNext (Rd.newBytes [0, 0, 0, 1, 9] 5) 8).bind (fun r => .ok (r.1, r.2.ri)) = .ok ([0, 0, 0, 1], 4) := by
   decide +kernel
 -- the same through the lift: the model's outcome, reader state included
-example : liftDec absStd (fun p => p.r) (Funcs.SD_Next stdI 80 { r := Rd.newBytes [0, 0, 0, 1, 9] 5, rn := 7 } 8) =
+example : liftSDec absStd (fun p => p.r) (Funcs.SD_Next stdI 80 { r := Rd.newBytes [0, 0, 0, 1, 9] 5, rn := 7 } 8) =
     bufioxDecNext (Rd.newBytes [0, 0, 0, 1, 9] 5) 8 := by decide +kernel
 -- over a scripted source: 3 bytes, then 2 bytes together with the source error #7
 example : outD (Funcs.SD_Next stdI 80
@@ -482,7 +482,7 @@ example : outD (Funcs.SD_Next stdI 80
 example : outD (Funcs.SD_Next stdI 80
       { r := Rd.newDefault ⟨[1, 2, 3, 4, 5], [⟨3, none⟩, ⟨3, some (.src 7)⟩]⟩, rn := 0 } 10) =
     .ok ([], GoErr.named "src#7", 0, 0, some (.src 7)) := by decide +kernel
-example : liftDec absStd (fun p => p.r) (Funcs.SD_Next stdI 80
+example : liftSDec absStd (fun p => p.r) (Funcs.SD_Next stdI 80
       { r := Rd.newDefault ⟨[1, 2, 3, 4, 5], [⟨3, none⟩, ⟨3, some (.src 7)⟩]⟩, rn := 0 } 10) = .err (.raw (.src 7)) := by
   decide +kernel
 example : outD (Funcs.SD_Next stdI 80 { r := Rd.newBytes [8, 0, 1, 0, 0] 5, rn := 0 } 12) =
